@@ -102,6 +102,17 @@ package workflow
 //@   ensures (r is *taskRole || r is *callRole) ==> t.state == s
 //@   ensures !(r is *taskRole) && !(r is *callRole) ==> t.state == old(foldState(kids(r), len(kids(r))))
 //@   ensures s == sm.ERROR ==> t.state == sm.ERROR
+// the cache is read, recomputed from the children and stored in ONE critical section of the cell's lock: the lock taken on
+// entry is released only by the deferred unlock (two updates of different children that interleave between the walk over
+// the children and the store would otherwise leave a stale fold, e.g. lose an ERROR)
+//@   ghostvar held bool = false
+//@   ghostvar willUnlock bool = false
+//@   on call (*sync.RWMutex).Lock when recvfield == "mu" : assert !held ; held = true
+//@   on defer (*sync.RWMutex).Unlock when recvfield == "mu" : assert held ; willUnlock = true
+//@   on call (*sync.RWMutex).Unlock when recvfield == "mu" : held = false
+//@   on store workflow.SafeState.state : assert held && willUnlock
+//@   on call workflow.aggregateState : assert held && willUnlock
+//@   on call .GetRoles : assert held && willUnlock
 
 //@ func (t *SafeStatus) merge(s task.Status, r Role)
 //@   property C11
@@ -113,6 +124,14 @@ package workflow
 //@            (t.status == o && foldStatus(kids(r), len(kids(r))) == s))
 //@   ensures (r is *taskRole || r is *callRole) ==> t.status == s
 //@   ensures !(r is *taskRole) && !(r is *callRole) ==> t.status == old(foldStatus(kids(r), len(kids(r))))
+//@   ghostvar held bool = false
+//@   ghostvar willUnlock bool = false
+//@   on call (*sync.RWMutex).Lock when recvfield == "mu" : assert !held ; held = true
+//@   on defer (*sync.RWMutex).Unlock when recvfield == "mu" : assert held ; willUnlock = true
+//@   on call (*sync.RWMutex).Unlock when recvfield == "mu" : held = false
+//@   on store workflow.SafeStatus.status : assert held && willUnlock
+//@   on call workflow.aggregateStatus : assert held && willUnlock
+//@   on call .GetRoles : assert held && willUnlock
 
 //@ func (t *SafeState) get() (s sm.State)
 //@   property C11
@@ -480,6 +499,33 @@ package workflow
 //@   on call <dynamic> : assert arg1 == iface(r) ; ownD = r.Defaults ; ownV = r.Vars ; ownU = r.UserVars ; ownP = r.parent
 //@   on aftercall <dynamic> : loaded = true ; assume result2 == nil ==> result0 != nil && result0.Defaults != nil && result0.Vars != nil && result0.UserVars != nil && result0.Defaults.parent == iface(ownD) && result0.Vars.parent == iface(ownV) && result0.UserVars.parent == iface(ownU) && r.parent == ownP
 //@   on call (*aggregatorRole).ProcessTemplates : assert loaded && r.Defaults.parent == iface(ownD) && r.Vars.parent == iface(ownV) && r.UserVars.parent == iface(ownU) && r.parent == ownP
+
+// C14 (the nearest definition wins - an iterator's loop variable is nearer than anything an ancestor defines): after its
+// own templates are processed a task / call role publishes EVERY one of its locals (the iterator variables it was
+// generated with) in its own vars, whatever the maps further up say about the same key.
+//@ func (t *taskRole) ProcessTemplates(workflowRepo repos.IRepo, _ LoadSubworkflowFunc, baseConfigStack map[string]string) (err error)
+//@   property C14
+//@   ghostvar pub map[string]bool = empty
+//@   on call .Set : assert arg0 == t.Vars && arg1 == k && arg2 == v ; pub[arg1] = true
+//@   loop 1 invariant forall x string :: #visited[x] ==> pub[x]
+//@   on call strings.TrimSpace : assert forall x string :: (x in t.Locals) ==> pub[x]
+//@ func (t *callRole) ProcessTemplates(workflowRepo repos.IRepo, _ LoadSubworkflowFunc, baseConfigStack map[string]string) (err error)
+//@   property C14
+//@   ghostvar pub map[string]bool = empty
+//@   on call .Set : assert arg0 == t.Vars && arg1 == k && arg2 == v ; pub[arg1] = true
+//@   loop 1 invariant forall x string :: #visited[x] ==> pub[x]
+//@   on call strings.TrimSpace : assert forall x string :: (x in t.Locals) ==> pub[x]
+
+// C15 / C13: a copy of an iterator role (made per element when iterators are nested) has its OWN copy of the template it
+// generates roles from: the generated roles are re-parented and expanded in place, concurrently for sibling copies.
+//@ func (i *iteratorRole) copy() (c copyable)
+//@   property C15
+//@   requires i != nil
+//@   ghostvar tcopied bool = false
+//@   ghostvar tc copyable = nil
+//@   on call roleTemplate.copy : assert recv == i.template
+//@   on aftercall roleTemplate.copy : tc = result ; tcopied = true
+//@   ensures tcopied && c is *iteratorRole && c.(*iteratorRole).template == tc
 
 // C15: a template error while resolving an iterator's range expression makes the load fail (the JSON decoding of the
 // resolved text is outside the contracts)
